@@ -64,6 +64,84 @@ pub enum SortBy {
     Date,
 }
 
+// ---------------- error types ----------------
+
+/// What the statement prescribes for an error of type `Self` carried by a rejection,
+/// stated independently of the extractors: status code and body of the response.
+pub trait Prescribed: deserr::DeserializeError + actix_web::ResponseError + axum::response::IntoResponse + 'static {
+    fn prescribed(&self) -> (u16, String);
+    fn text(&self) -> String;
+}
+
+impl Prescribed for JsonError {
+    fn prescribed(&self) -> (u16, String) {
+        // "for JsonError: status 400 with the message as body"
+        (400, self.to_string())
+    }
+    fn text(&self) -> String {
+        self.to_string()
+    }
+}
+
+/// A user-defined keep-going error type whose HTTP rendering is *not* a 400:
+/// the rejection must carry exactly this error, rendered by its own impls.
+#[derive(Debug, Clone, PartialEq)]
+pub struct HttpErr(pub Vec<String>);
+
+impl std::fmt::Display for HttpErr {
+    fn fmt(&self, f: &mut std::fmt::Formatter<'_>) -> std::fmt::Result {
+        write!(f, "{}", self.0.join(" | "))
+    }
+}
+
+impl deserr::DeserializeError for HttpErr {
+    fn error<V: deserr::IntoValue>(
+        self_: Option<Self>,
+        error: deserr::ErrorKind<V>,
+        location: deserr::ValuePointerRef,
+    ) -> std::ops::ControlFlow<Self, Self> {
+        // reuse JsonError's rendering of one report, but keep going
+        let one = match JsonError::error::<V>(None, error, location) {
+            std::ops::ControlFlow::Break(e) | std::ops::ControlFlow::Continue(e) => e.to_string(),
+        };
+        let mut v = self_.map(|s| s.0).unwrap_or_default();
+        v.push(one);
+        std::ops::ControlFlow::Continue(HttpErr(v))
+    }
+}
+
+impl deserr::MergeWithError<HttpErr> for HttpErr {
+    fn merge(self_: Option<Self>, other: HttpErr, _: deserr::ValuePointerRef) -> std::ops::ControlFlow<Self, Self> {
+        let mut v = self_.map(|s| s.0).unwrap_or_default();
+        v.extend(other.0);
+        std::ops::ControlFlow::Continue(HttpErr(v))
+    }
+}
+
+impl actix_web::ResponseError for HttpErr {
+    fn status_code(&self) -> actix_web::http::StatusCode {
+        actix_web::http::StatusCode::UNPROCESSABLE_ENTITY
+    }
+    fn error_response(&self) -> actix_web::HttpResponse<actix_web::body::BoxBody> {
+        actix_web::HttpResponseBuilder::new(self.status_code()).content_type("text/plain").body(format!("E:{self}"))
+    }
+}
+
+impl axum::response::IntoResponse for HttpErr {
+    fn into_response(self) -> axum::response::Response {
+        (http::StatusCode::UNPROCESSABLE_ENTITY, format!("E:{self}")).into_response()
+    }
+}
+
+impl Prescribed for HttpErr {
+    fn prescribed(&self) -> (u16, String) {
+        (422, format!("E:{self}"))
+    }
+    fn text(&self) -> String {
+        self.to_string()
+    }
+}
+
 // ---------------- manual polling ----------------
 
 const HORIZON: usize = 10_000;
@@ -246,10 +324,10 @@ fn actix_payload(steps: &[Step]) -> actix_web::dev::Payload {
 }
 
 /// The deserr extractor under one schedule.
-fn actix_deserr<T: Deserr<JsonError> + std::fmt::Debug + 'static>(ct: Option<&str>, steps: &[Step]) -> Extracted {
+fn actix_deserr<T: Deserr<E> + std::fmt::Debug + 'static, E: Prescribed>(ct: Option<&str>, steps: &[Step]) -> Extracted {
     let req = actix_request(ct);
     let mut payload = actix_payload(steps);
-    let fut = deserr::actix_web::AwebJson::<T, JsonError>::from_request(&req, &mut payload);
+    let fut = deserr::actix_web::AwebJson::<T, E>::from_request(&req, &mut payload);
     match drive(fut) {
         None => Extracted::Stuck,
         Some((Ok(v), _)) => Extracted::Value(format!("{:?}", v.into_inner())),
@@ -258,16 +336,19 @@ fn actix_deserr<T: Deserr<JsonError> + std::fmt::Debug + 'static>(ct: Option<&st
 }
 
 /// What the statement prescribes: framework extractor, then deserr::deserialize.
-fn actix_expected<T: Deserr<JsonError> + std::fmt::Debug>(ct: Option<&str>, steps: &[Step]) -> Extracted {
+fn actix_expected<T: Deserr<E> + std::fmt::Debug, E: Prescribed>(ct: Option<&str>, steps: &[Step]) -> Extracted {
     let req = actix_request(ct);
     let mut payload = actix_payload(steps);
     let fut = actix_web::web::Json::<serde_json::Value>::from_request(&req, &mut payload);
     match drive(fut) {
         None => Extracted::Stuck,
         Some((Err(e), _)) => actix_error_outcome(&e),
-        Some((Ok(doc), _)) => match deserr::deserialize::<T, _, JsonError>(doc.into_inner()) {
+        Some((Ok(doc), _)) => match deserr::deserialize::<T, _, E>(doc.into_inner()) {
             Ok(v) => Extracted::Value(format!("{v:?}")),
-            Err(e) => Extracted::Rejected { status: 400, body: e.to_string() },
+            Err(e) => {
+                let (status, body) = e.prescribed();
+                Extracted::Rejected { status, body }
+            }
         },
     }
 }
@@ -290,18 +371,18 @@ fn axum_response_outcome(resp: axum::response::Response) -> Extracted {
     Extracted::Rejected { status, body }
 }
 
-fn axum_deserr<T: Deserr<JsonError> + std::fmt::Debug + 'static>(ct: Option<&str>, steps: &[Step]) -> (Extracted, Option<String>) {
+fn axum_deserr<T: Deserr<E> + std::fmt::Debug + 'static, E: Prescribed>(ct: Option<&str>, steps: &[Step]) -> (Extracted, Option<String>) {
     use axum::extract::FromRequest;
     use axum::response::IntoResponse;
     let req = axum_request(ct, steps);
-    let fut = deserr::axum::AxumJson::<T, JsonError>::from_request(req, &());
+    let fut = deserr::axum::AxumJson::<T, E>::from_request(req, &());
     match drive(fut) {
         None => (Extracted::Stuck, None),
         Some((Ok(v), _)) => (Extracted::Value(format!("{:?}", v.into_inner())), None),
         Some((Err(rej), _)) => {
             // the rejection carries exactly the deserr error
             let carried = match &rej {
-                deserr::axum::AxumJsonRejection::DeserrError(e) => Some(e.to_string()),
+                deserr::axum::AxumJsonRejection::DeserrError(e) => Some(e.text()),
                 deserr::axum::AxumJsonRejection::JsonRejection(_) => None,
             };
             (axum_response_outcome(rej.into_response()), carried)
@@ -309,7 +390,7 @@ fn axum_deserr<T: Deserr<JsonError> + std::fmt::Debug + 'static>(ct: Option<&str
     }
 }
 
-fn axum_expected<T: Deserr<JsonError> + std::fmt::Debug>(ct: Option<&str>, steps: &[Step]) -> (Extracted, Option<String>) {
+fn axum_expected<T: Deserr<E> + std::fmt::Debug, E: Prescribed>(ct: Option<&str>, steps: &[Step]) -> (Extracted, Option<String>) {
     use axum::extract::FromRequest;
     use axum::response::IntoResponse;
     let req = axum_request(ct, steps);
@@ -317,9 +398,12 @@ fn axum_expected<T: Deserr<JsonError> + std::fmt::Debug>(ct: Option<&str>, steps
     match drive(fut) {
         None => (Extracted::Stuck, None),
         Some((Err(rej), _)) => (axum_response_outcome(rej.into_response()), None),
-        Some((Ok(axum::Json(doc)), _)) => match deserr::deserialize::<T, _, JsonError>(doc) {
+        Some((Ok(axum::Json(doc)), _)) => match deserr::deserialize::<T, _, E>(doc) {
             Ok(v) => (Extracted::Value(format!("{v:?}")), None),
-            Err(e) => (Extracted::Rejected { status: 400, body: e.to_string() }, Some(e.to_string())),
+            Err(e) => {
+                let (status, body) = e.prescribed();
+                (Extracted::Rejected { status, body }, Some(e.text()))
+            }
         },
     }
 }
@@ -456,7 +540,7 @@ fn query_strings() -> Vec<String> {
     out
 }
 
-fn run_target<T: Deserr<JsonError> + std::fmt::Debug + 'static>(name: &str, tier: Tier, rec: &Recorder, outcomes: &mut HashSet<u64>) {
+fn run_target<T: Deserr<E> + std::fmt::Debug + 'static, E: Prescribed>(name: &str, tier: Tier, rec: &Recorder, outcomes: &mut HashSet<u64>) {
     let (max_chunks, all_cuts) = if tier == Tier::Quick { (3, false) } else { (3, true) };
     for body in bodies(name) {
         for (ct, limit) in CONTENT_TYPES.iter().flat_map(|c| [(*c, None), (*c, Some(16usize))]) {
@@ -470,19 +554,19 @@ fn run_target<T: Deserr<JsonError> + std::fmt::Debug + 'static>(name: &str, tier
             let mut execs = 0u64;
             // the statement's right-hand side, under the unsplit schedule
             let unsplit = vec![Step::Chunk(body.clone())];
-            let exp_actix = guarded(|| actix_expected::<T>(ct, &unsplit), Extracted::Panicked);
-            let (exp_axum, exp_axum_err) = guarded(|| axum_expected::<T>(ct, &unsplit), |m| (Extracted::Panicked(m), None));
+            let exp_actix = guarded(|| actix_expected::<T, E>(ct, &unsplit), Extracted::Panicked);
+            let (exp_axum, exp_axum_err) = guarded(|| axum_expected::<T, E>(ct, &unsplit), |m| (Extracted::Panicked(m), None));
             states += 1;
-            outcomes.insert(hash64(&(name, &exp_actix)));
-            outcomes.insert(hash64(&(name, "axum", &exp_axum)));
+            outcomes.insert(hash64(&(name, std::any::type_name::<E>(), &exp_actix)));
+            outcomes.insert(hash64(&(name, std::any::type_name::<E>(), "axum", &exp_axum)));
             let mut bad = 0;
             for steps in &scheds {
-                let got_actix = guarded(|| actix_deserr::<T>(ct, steps), Extracted::Panicked);
-                let (got_axum, carried) = guarded(|| axum_deserr::<T>(ct, steps), |m| (Extracted::Panicked(m), None));
+                let got_actix = guarded(|| actix_deserr::<T, E>(ct, steps), Extracted::Panicked);
+                let (got_axum, carried) = guarded(|| axum_deserr::<T, E>(ct, steps), |m| (Extracted::Panicked(m), None));
                 // the framework's own extractor under the same schedule (must not depend on it either,
                 // otherwise the comparison below would be against a moving target)
-                let exp_actix_here = guarded(|| actix_expected::<T>(ct, steps), Extracted::Panicked);
-                let (exp_axum_here, _) = guarded(|| axum_expected::<T>(ct, steps), |m| (Extracted::Panicked(m), None));
+                let exp_actix_here = guarded(|| actix_expected::<T, E>(ct, steps), Extracted::Panicked);
+                let (exp_axum_here, _) = guarded(|| axum_expected::<T, E>(ct, steps), |m| (Extracted::Panicked(m), None));
                 execs += 4;
                 let mut errs: Vec<String> = vec![];
                 if got_actix != exp_actix_here {
@@ -509,7 +593,7 @@ fn run_target<T: Deserr<JsonError> + std::fmt::Debug + 'static>(name: &str, tier
                     if bad <= 2 {
                         rec.violation(Violation {
                             property: "C20".into(),
-                            subject: format!("{name} / {}", m.split(':').next().unwrap_or("")),
+                            subject: format!("{name} / {} / {}", std::any::type_name::<E>().rsplit("::").next().unwrap_or(""), m.split(':').next().unwrap_or("")),
                             message: format!(
                                 "{m}\n  body: {:?}\n  content-type: {ct:?}  actix JSON limit: {limit:?}\n  delivery schedule: {}",
                                 String::from_utf8_lossy(&body),
@@ -620,9 +704,13 @@ fn main() {
     }
     let mut outcomes: HashSet<u64> = HashSet::new();
     ACTIX_LIMIT.with(|c| c.set(None));
-    run_target::<T1>("T1", tier, &rec, &mut outcomes);
-    run_target::<T2>("T2", tier, &rec, &mut outcomes);
-    run_target::<T3>("T3", tier, &rec, &mut outcomes);
+    run_target::<T1, JsonError>("T1", tier, &rec, &mut outcomes);
+    run_target::<T2, JsonError>("T2", tier, &rec, &mut outcomes);
+    run_target::<T3, JsonError>("T3", tier, &rec, &mut outcomes);
+    // a user-defined keep-going error type rendered as 422: the rejection must carry exactly it
+    run_target::<T1, HttpErr>("T1", tier, &rec, &mut outcomes);
+    run_target::<T2, HttpErr>("T2", tier, &rec, &mut outcomes);
+    run_target::<T3, HttpErr>("T3", tier, &rec, &mut outcomes);
     ACTIX_LIMIT.with(|c| c.set(None));
     run_query(&rec, &mut outcomes);
     rec.add_signatures(&outcomes, &outcomes);
@@ -630,7 +718,7 @@ fn main() {
     rec.set_extra("content_types", json!(CONTENT_TYPES.iter().map(|c| format!("{c:?}")).collect::<Vec<_>>()));
     let code = rec.finish(
         "model_checking",
-        "states = (target type ∈ {struct with deny_unknown_fields, tagged enum with Vec and defaulted Option, struct with default and nested Option<struct>}, request body from a grammar of valid / ill-typed at each position / scalar of every kind at the root / syntactically broken / non-UTF-8 documents, content type ∈ 6 values incl. absent and wrong); transitions = delivery schedules of the body: every split into ≤ 3 chunks (quick: cut points {1,2,L/3,L/2,L-2,L-1}; thorough: all cut points) × a Pending before every subset of the chunks and before the end, plus transport failures (two framework-level error kinds) at the start, mid-body and after the body; actix additionally with a 16-byte JSON limit (framework rejection with a non-400 status). Every schedule drives the real AwebJson and AxumJson extractor futures by hand (no runtime, no-op waker, 10 000-poll horizon). Oracle (self-relative): equals the framework's own Json<serde_json::Value> extractor on an identical request followed by deserr::deserialize (same value; on deserr failure status 400 with the message as body, for axum AxumJsonRejection::DeserrError with that error; framework rejections unchanged in status and body); independent of the schedule. Query parameters: every query string of ≤ 2 pairs over 4 keys × 8 values (incl. repeated keys, empty values, %-escapes, a broken escape) and ≤ 3 pairs over a reduced alphabet, through from_query and FromRequest, against Query<serde_json::Value> + deserialize.",
+        "states = (target type ∈ {struct with deny_unknown_fields, tagged enum with Vec and defaulted Option, struct with default and nested Option<struct>}, request body from a grammar of valid / ill-typed at each position / scalar of every kind at the root / syntactically broken / non-UTF-8 documents, content type ∈ 6 values incl. absent and wrong); transitions = delivery schedules of the body: every split into ≤ 3 chunks (quick: cut points {1,2,L/3,L/2,L-2,L-1}; thorough: all cut points) × a Pending before every subset of the chunks and before the end, plus transport failures (two framework-level error kinds) at the start, mid-body and after the body; actix additionally with a 16-byte JSON limit (framework rejection with a non-400 status). Every schedule drives the real AwebJson and AxumJson extractor futures by hand (no runtime, no-op waker, 10 000-poll horizon). Oracle (self-relative): equals the framework's own Json<serde_json::Value> extractor on an identical request followed by deserr::deserialize (same value; on deserr failure the rejection carries exactly the deserr error — for JsonError status 400 with the message as body, for a user-defined keep-going error type its own 422 rendering; for axum AxumJsonRejection::DeserrError with that error; framework rejections unchanged in status and body); independent of the schedule. Query parameters: every query string of ≤ 2 pairs over 4 keys × 8 values (incl. repeated keys, empty values, %-escapes, a broken escape) and ≤ 3 pairs over a reduced alphabet, through from_query and FromRequest, against Query<serde_json::Value> + deserialize.",
         &[
             "the frameworks' own extractors are the reference for framework-level behaviour, as the statement says",
             "bodies come from a finite grammar; body size limits of the frameworks are not exercised",
